@@ -67,11 +67,27 @@ class Loop:
         self.modifies = modifies
 
 
+class At:
+    """Ghost assertion attached to a statement of the real body, keyed by the
+    source text of a call target (`call='self.context.startSection'`) or by a
+    statement kind and ordinal (`stmt='Pass', nth=0`).  At a call, `args` is the
+    tuple of evaluated positional arguments."""
+
+    def __init__(self, expr, call=None, stmt=None, nth=0, carries=None, label=None):
+        self.expr = expr
+        self.call = call
+        self.stmt = stmt
+        self.nth = nth
+        self.carries = carries
+        self.label = label or (call or stmt or '')[-30:]
+
+
 class Contract:
     def __init__(self, qualname, params=None, returns='None', requires=(), ensures=(),
                  raises=(), modifies=(), loops=(), assumed=False, pure=False,
                  self_type=None, ghost=None, fresh_result=False, notes='',
-                 total=True, locals=None, may_raise_other=False, decreases=None):
+                 total=True, locals=None, may_raise_other=False, decreases=None,
+                 asserts=(), frame_carries=None, escape_carries=None):
         self.qualname = qualname
         self.params = dict(params or {})
         self.returns = returns
@@ -87,6 +103,9 @@ class Contract:
         self.notes = notes
         self.locals = locals or {}
         self.decreases = decreases
+        self.asserts = list(asserts)
+        self.frame_carries = frame_carries
+        self.escape_carries = escape_carries
 
 
 def contract(qualname, **kw):
@@ -106,13 +125,17 @@ def inline(*qualnames):
 
 class Model:
     def __init__(self, qualname, fields=None, invariant=(), bases=(), iterates=None,
-                 external=False):
+                 external=False, optional=None, defaults=None, ghost_fields=(), late_fields=()):
         self.qualname = qualname
         self.fields = dict(fields or {})
         self.invariant = [Clause.of(c) for c in invariant]
         self.bases = list(bases)        # for virtual (non-repo) classes
         self.iterates = iterates
         self.external = external
+        self.optional = dict(optional or {})     # attribute -> presence flag field
+        self.defaults = dict(defaults or {})     # field -> expression (value at allocation)
+        self.ghost_fields = tuple(ghost_fields)
+        self.late_fields = tuple(late_fields)
 
 
 def model(qualname, **kw):
